@@ -133,6 +133,12 @@ def programs(tier, seed):
         d = os.path.join(REPO, "analysis/escape/testdata", name)
         text = open(os.path.join(d, "main.go")).read()
         progs.append({"kind": "src", "name": "escape-testdata-" + name, "text": text, "config": ""})
+    # indirect calls mixing local closures and non-local function values (appended last: the draws of the programs
+    # above do not move)
+    import tgen
+    from common import Rng as _Rng
+    for k in range(10 if tier == "quick" else 80):
+        progs.append({"kind": "src", "name": "indirectfam-%d-%d" % (seed, k), "text": tgen.indirectfam(_Rng(seed * 59 + k)), "config": ""})
     return progs
 
 
